@@ -617,6 +617,13 @@ class Log():
                 # Guard against multiple responses due to re-sending
                 if not self.toc:
                     logger.debug('Logging reset, continue with TOC download')
+                    # The reset removed all blocks in the Crazyflie, the
+                    # configurations of a previous session are not added or
+                    # started any more (they are created again when started)
+                    for block in self.log_blocks:
+                        block.started = False
+                        block.added = False
+                        block.pending = False
                     self.log_blocks = []
 
                     self.toc = Toc()
